@@ -114,8 +114,8 @@ Print Assumptions C14_conn_death_worker.
 (* ---- stale pooled connections ---- *)
 (* Every run that returns while ctx is live, in which no dial failed, the pool did not refuse, no freshly dialled
    connection failed, and at most retry_limit reused connections failed, returns the reply.
-   The side condition "fails s <= retry_limit tk" (at most b stale pooled connections) is a real hypothesis: for the
-   one-at-a-time transport nothing bounds the number of stale idle connections; see C14_many_stale_refuted. *)
+   The side condition "fails s <= retry_limit tk" (at most b stale pooled connections) is needed for the pipelined and
+   QUIC transports (C14_budget_exhausted_pipe_quic); for the one-at-a-time transport see C14_stale_success_reuse. *)
 Theorem C14_stale_success : forall tk s r,
   reachable tk s -> pcv s = PRet r ->
   ctxd s = false -> g_dial_fail s = false -> g_get_err s = false -> g_fresh_fail s = false ->
@@ -140,21 +140,34 @@ Theorem C14_stale_success_script : forall tk k,
 Proof. exact script_stale_success_both. Qed.
 Print Assumptions C14_stale_success_script.
 
-(* FULL property (false of the faithful model of ReuseConnTransport):
-     forall n, run_script TReuse (repeat FDie n) [] = Some (mkOut RReply 1 _ false)
-   "whatever the number of idle connections the server closed, a healthy server is reached".
-   Finding K7: ReuseConnTransport.ExchangeContext retries on the NEXT IDLE connection and its idle set is unbounded:
-   with 7 (or 12) stale idle connections the exchange fails after 7 attempts and ZERO dials, with ctx live, while a
-   dial would have succeeded (last conjunct). *)
-Theorem C14_many_stale_refuted :
-  (exists ls s, exec TReuse ls init = Some s /\ pcv s = PRet RErr /\
-                ctxd s = false /\ g_dial_fail s = false /\ g_get_err s = false /\ g_fresh_fail s = false /\
-                dials s = 0 /\ fails s = 7) /\
-  run_script TReuse (repeat FDie 7) [] = Some (mkOut RErr 0 7 false) /\
-  run_script TReuse (repeat FDie 12) [] = Some (mkOut RErr 0 7 false) /\
-  run_script TReuse [] [] = Some (mkOut RReply 1 1 false).
-Proof. exact many_stale_refuted. Qed.
-Print Assumptions C14_many_stale_refuted.
+(* Finding K7 (FIXED in /repo, commit "fix: reuse transport makes its last attempt on a fresh connection"):
+   ReuseConnTransport.ExchangeContext used to retry on the NEXT IDLE connection and its idle set is unbounded, so with
+   7 (or 12) stale idle connections the exchange failed after 7 attempts and ZERO dials while a dial would have
+   succeeded (replay: corpus/C14/fixed-k7-many-stale.case; on the unfixed tree the check reports
+   c14-stale-not-survived). After the fix the last attempt dials; for that transport the side condition of
+   C14_stale_success disappears: ANY number of stale idle connections is survived. *)
+Theorem C14_stale_success_reuse : forall s r,
+  reachable TReuse s -> pcv s = PRet r ->
+  ctxd s = false -> g_dial_fail s = false -> g_get_err s = false -> g_fresh_fail s = false ->
+  r = RReply.
+Proof. exact (fun s r => stale_success_unbounded TReuse s r eq_refl). Qed.
+Print Assumptions C14_stale_success_reuse.
+
+(* scripted form, for every n: n stale idle connections, healthy server: reply after min(n,6)+1 attempts, one dial *)
+Theorem C14_many_stale_survived : forall n,
+  run_script TReuse (repeat FDie n) [] = Some (mkOut RReply 1 (S (Nat.min n 6)) false).
+Proof. exact script_many_stale_survived. Qed.
+Print Assumptions C14_many_stale_survived.
+
+(* The pipelined and the QUIC transport keep the side condition (their pools never hand out a connection they know
+   to be closed, and hold few connections): 6 reused connections that each die only when used exhaust the budget
+   without a dial. Not reachable with real sockets in a quiescent scenario (the pipelined read loop notices a dead
+   connection at once); reproduced on the real loop only with injected failing Writes (tr=pfake). *)
+Theorem C14_budget_exhausted_pipe_quic :
+  run_script TPipe (repeat FDie 6) [] = Some (mkOut RErr 0 6 false) /\
+  run_script TQuic (repeat FDie 6) [] = Some (mkOut RErr 0 6 false).
+Proof. exact script_budget_exhausted. Qed.
+Print Assumptions C14_budget_exhausted_pipe_quic.
 
 (* the scripted runner the harness is compared with only produces executions of the LTS, within the bounds *)
 Theorem C14_script_sound : forall tk pool dialf o,
@@ -166,14 +179,16 @@ Proof. exact run_script_sound_bounds. Qed.
 Print Assumptions C14_script_sound.
 
 (* ---- non-vacuity ---- *)
-(* boundary of the retry constants: 5 stale -> reply / 6 stale -> error on the pipelined transport; 6 / 7 on reuse *)
+(* boundary of the retry constants: 5 stale -> reply / 6 stale -> error on the pipelined transport; on reuse 6 retries, then the 7th attempt always dials *)
 Example C14_example_boundaries :
   run_script TPipe (repeat FDie 5) [] = Some (mkOut RReply 1 6 false) /\
   run_script TPipe (repeat FDie 6) [] = Some (mkOut RErr 0 6 false) /\
   run_script TQuic (repeat FDie 5) [] = Some (mkOut RReply 1 6 false) /\
   run_script TQuic (repeat FDie 6) [] = Some (mkOut RErr 0 6 false) /\
   run_script TReuse (repeat FDie 6) [] = Some (mkOut RReply 1 7 false) /\
-  run_script TReuse (repeat FDie 7) [] = Some (mkOut RErr 0 7 false).
+  run_script TReuse (repeat FDie 7) [] = Some (mkOut RReply 1 7 false) /\
+  run_script TReuse (repeat FDie 7) [FDialRefuse] = Some (mkOut RErr 1 7 false) /\
+  run_script TReuse (repeat FDie 5) [FDialRefuse] = Some (mkOut RErr 1 6 false).
 Proof. vm_compute. repeat split. Qed.
 
 (* a failure on a fresh connection is not retried; a silent server / a dial that never completes ends at ctx *)
